@@ -170,12 +170,32 @@ def _cell_offset_in(ctx, res, fn, recv, fold_inits=None) -> int:
         return None
     sites = []  # (owner of .cells, offset expression, text of the shifted cells)
     shifted_names = set()
+    inner_adds = {id(x) for n in ast.walk(node) if isinstance(n, ast.BinOp) and isinstance(n.op, ast.Add)
+                  for x in (n.left, n.right) if isinstance(x, ast.BinOp) and isinstance(x.op, ast.Add)}
     for n in ast.walk(node):
         ops = _add_operands(n)
-        if ops is not None:
-            for a, b in (ops, ops[::-1]):
+        if ops is not None and id(n) not in inner_adds:
+            # a chain a + b + c is one sum: the cells are one term, the offset is the sum of the others
+            terms = []
+
+            def flat(e):
+                if isinstance(e, ast.BinOp) and isinstance(e.op, ast.Add):
+                    flat(e.left)
+                    flat(e.right)
+                else:
+                    terms.append(e)
+
+            if isinstance(n, ast.BinOp):
+                flat(n)
+            else:
+                terms = list(ops)
+            for i, a in enumerate(terms):
                 owner = _cells_owner(lc.expand(a))
-                if owner is not None:
+                if owner is not None and len(terms) > 1:
+                    rest = terms[:i] + terms[i + 1:]
+                    b = rest[0]
+                    for r in rest[1:]:
+                        b = ast.copy_location(ast.BinOp(left=b, op=ast.Add(), right=r), n)
                     sites.append((owner, b, lc.text(n), n))
                     break
         elif isinstance(n, ast.AugAssign) and isinstance(n.op, ast.Add) and isinstance(n.target, ast.Name):
@@ -247,6 +267,16 @@ def _cell_offset_in(ctx, res, fn, recv, fold_inits=None) -> int:
                     queue += [(v, add, False) for v, add in lc.sources(lf)]
                     continue
                 bad.append(lf)
+            if initial:
+                # what is ADDED to the cells is the carried offset alone: the input's own count may flow into the offset only when it
+                # is advanced for the next input (loop, fold and helper spellings alike)
+                own = [lf for lf in _leaves(sx) if _vertex_count_source(lf, ent)]
+                res.inst("CellMerger.create_object: the offset added to an input's cells does not contain that input's own count", ok=not own)
+                if own:
+                    res.find("CellMerger", "create_object", "cell offset is advanced before it is applied to the same input's cells",
+                             f"{fn.module.relpath}:{getattr(s, 'lineno', fn.node.lineno)}",
+                             f"the expression added to the input's cells reads the input's own vertex count (`{unparse(s)[:50]}`): each input is shifted by "
+                             "its own count as well (offset k must be the sum over the inputs before k)")
             if initial and isinstance(s, ast.Name) and s.id in followed and not bad:
                 continue  # the offset variable itself: its sources are judged one by one
             mark = (ent, unparse(s), additive)
